@@ -199,7 +199,8 @@ func (self *linkedPairs) BuildIndex() {
 	if self.index == nil {
 		self.index = make(map[uint64]int, self.size)
 	}
-	for i := 0; i < self.size; i++ {
+	// the first pair of a key wins, as in the linear search, lazy loading and sonic.Get
+	for i := self.size - 1; i >= 0; i-- {
 		p := self.At(i)
 		self.index[p.hash] = i
 	}
@@ -249,7 +250,10 @@ func (self *linkedPairs) Pop() {
 func (self *linkedPairs) Unset(i int) {
 	if self.index != nil {
 		p := self.At(i)
-		delete(self.index, p.hash)
+		// drop only the entry that names this slot: an earlier pair may carry the same key
+		if j, ok := self.index[p.hash]; ok && j == i {
+			delete(self.index, p.hash)
+		}
 	}
 	self.set(i, Pair{})
 }
@@ -412,6 +416,11 @@ func (self *linkedPairs) Swap(i, j int) {
 
 func (self *linkedPairs) Sort() {
 	sort.Stable(self)
+	if self.index != nil {
+		// Swap records whichever of two equal keys moved last: rebuild so that the first pair wins
+		self.index = nil
+		self.BuildIndex()
+	}
 }
 
 // Compare two strings from the pos d.
